@@ -196,7 +196,7 @@ static int cmd_run(int argc, char **argv) {
     g_crash.seed = seed; g_crash.runIndex = (int)i; g_crash.active = 1;
     Plan p;
     if (!e->gen(family, profile, seed, p)) { fprintf(stderr, "cannot generate (profile %s)\n", profile.c_str()); return 2; }
-    alarm(20);
+    alarm(90);
     RunOut out = e->run(p, &st, false);
     if (out.viol.set()) {
       attribute_reloc(e, p, out);
@@ -237,7 +237,7 @@ static int cmd_hashes(int argc, char **argv) {
     g_crash.seed = seed; g_crash.runIndex = (int)i;
     Plan p;
     if (profile == "scenario" ? !e->gen_scenario(family, seed, p) : !e->gen(family, profile, seed, p)) return 2;
-    alarm(20);
+    alarm(90);
     RunOut out = e->run(p, nullptr, false);
     printf("H %llu %016llx %s %d\n", (unsigned long long)i, (unsigned long long)out.hash, vkind_name(out.viol.kind), out.viol.opIndex);
   }
@@ -276,7 +276,7 @@ static int cmd_enum(int argc, char **argv) {
         Plan q = p;
         q.ops.back().fkind = kind; q.ops.back().fk = fk;
         g_crash.faultKind = kind; g_crash.faultK = fk;
-        alarm(20);
+        alarm(90);
         uint64_t fe0 = st.faultsFiredElem, fa0 = st.faultsFiredAlloc;
         RunOut out = e->run(q, &st, false);
         ++executions;
@@ -451,7 +451,7 @@ static Eval eval_forked(Engine *e, const Plan &p) {
 }
 static Eval eval_inproc(Engine *e, const Plan &p) {
   ++g_evals;
-  alarm(20);
+  alarm(90);
   RunOut out = e->run(p, nullptr, false);
   attribute_reloc(e, p, out);
   alarm(0);
